@@ -953,6 +953,15 @@ class C04:
                        f"`{norm(s)[:60]}` looks a computed key up in the constant table `{D}`: KeyError for a key the table lacks, unless `{k[:30]} in {D}` "
                        "dominates the look-up or KeyError is handled", node=s, mod=mod)
         ctx.extra["T13_table_lookups"] = n
+        # today's tree has no such look-up, so the detector is exercised on a fixture on every run (a rule that matches nothing passes forever)
+        fx = ast.parse("TABLE = {'a': 1}\n\ndef f(k):\n    return TABLE[k.lower()]\n\ndef g(k):\n    if k in TABLE:\n        return TABLE[k]\n    return None\n")
+        for x in ast.walk(fx):
+            for c_ in ast.iter_child_nodes(x):
+                c_.parent = x  # type: ignore[attr-defined]
+        ff, gg = fx.body[1], fx.body[2]
+        sub_f = next(x for x in ast.walk(ff) if isinstance(x, ast.Subscript))
+        sub_g = next(x for x in ast.walk(gg) if isinstance(x, ast.Subscript))
+        ctx.need(not guarded(ff, sub_f, {"k.lower() in TABLE"}) and guarded(gg, sub_g, {"k in TABLE"}), "T13 self-check failed on the fixture functions")
 
     # ---- T14 the Hyperscan match handler never asks to stop --------------------------------------
     def t14_scan_callbacks(self):
